@@ -43,6 +43,9 @@ func intNode(v int64) *rt.Node {
 	return rt.Int(v)
 }
 
+// c04SliceV2: the program is built for the v2 interpreter (no len / add_key in its probe table)
+var c04SliceV2 bool
+
 func c04SliceProg(objList bool, n int, objLit bool, s, e, t bnd, colon2 bool, viaVar bool) *Prog {
 	var objNode *rt.Node
 	if objList {
@@ -74,6 +77,10 @@ func c04SliceProg(objList bool, n int, objLit bool, s, e, t bnd, colon2 bool, vi
 	sn, en, tn := mk(s, "s"), mk(e, "e"), mk(t, "t")
 	sl := rt.Slice(obj, sn, en, tn, colon2)
 	stmts = append(stmts, rt.Call("p", sl))
+	if !c04SliceV2 {
+		// the same slice expression directly under len(), compared with the empty list, and copied into the point
+		stmts = append(stmts, rt.Call("p", rt.Call("len", rt.Clone(sl)), rt.Bin("==", rt.Clone(sl), rt.List()), rt.In(rt.List(), rt.List(rt.Clone(sl)))), rt.Call("add_key", rt.Id("k"), rt.Clone(sl)), rt.Call("p", rt.Call("get_key", rt.Id("k"))))
+	}
 	return &Prog{Scripts: map[string][]*rt.Node{"s.p": stmts}, Main: "s.p", Point: PointSpec{Meas: "m"}}
 }
 
@@ -120,6 +127,7 @@ func panicClass(msg string) string {
 }
 
 func c04Slices(w *run.Worker, d dctx) {
+	c04SliceV2 = d.v2
 	r := int64(8)
 	maxLen := 5
 	if w.Thorough {
